@@ -142,7 +142,7 @@ def run_engine(ctx: Ctx) -> dict:
     insts = quick_instances() if ctx.quick else thorough_instances()
     if only:
         insts = [i for i in insts if i.name in only.split(",")]
-    n_per = 60 if ctx.quick else 150
+    n_per = 60 if ctx.quick else 120
     hashseeds = [0, 1] if ctx.quick else [0, 1, 2]
     mc_workers = 2
     res: dict = {"mc": [], "traces": [], "instances": [i.name for i in insts]}
